@@ -54,6 +54,8 @@ def margin(spec, p):
     """> 0: inside the accepted set by that much; < 0: outside by that much."""
     k = spec["kind"]
     hi = math.inf if spec.get("max") is None else spec.get("max")
+    if p != p:
+        return -math.inf  # NaN is in no allowable set
     if p == math.inf:
         return math.inf if (hi == math.inf and k != "finite") else -math.inf
     if k == "cont":
@@ -71,7 +73,24 @@ def build_evse(spec, sid="EV-se"):
         return EVSE(sid, max_rate=hi, min_rate=spec["min"])
     if k == "deadband":
         return DeadbandEVSE(sid, deadband_end=spec["end"], max_rate=hi)
-    return FiniteRatesEVSE(sid, list(spec["rates"]))
+    rates = list(spec["rates"])
+    how = spec.get("container", "list")
+    # "allowable_rates (iterable)": any iterable of rates, one-shot ones included
+    if how == "tuple":
+        rates = tuple(rates)
+    elif how == "array":
+        rates = np.array(rates, dtype=float)
+    elif how == "generator":
+        rates = (r for r in rates)
+    elif how == "map":
+        rates = map(float, rates)
+    elif how == "series":
+        import pandas as pd
+
+        rates = pd.Series(rates, index=["lvl-%d" % i for i in range(len(rates))])
+    elif how == "set":
+        rates = set(rates)
+    return FiniteRatesEVSE(sid, rates)
 
 
 def twin_of(es):
@@ -139,7 +158,7 @@ def prop(spec, rec):
     bnds = boundaries(es)
     for p in spec["pilots"]:
         m = margin(es, p)
-        if any(abs(p - b) <= 2e-3 + 1e-12 for b in bnds):
+        if p == p and any(abs(p - b) <= 2e-3 + 1e-12 for b in bnds):
             near += 1
         before = _snapshot(evse, ev)
         err = None
@@ -167,6 +186,8 @@ def prop(spec, rec):
             n_rej += 1
             require(err is not None, "reject", lambda: "pilot %r (%g outside the allowable set of %r) was accepted" % (p, -m, es))
             require(type(err).__name__ == "InvalidRateError", "reject_error_type", lambda: "rejected pilot raised %r instead of InvalidRateError" % (err,))
+            if p != p:
+                labels.add("nan_pilot")
             require(after == before, "reject_state_unchanged", lambda: "rejected pilot %r changed state: before %r after %r" % (p, before, after))
 
     # --- advertised values are accepted
@@ -282,6 +303,8 @@ def prop(spec, rec):
     if n_rej:
         labels.add("rejected")
     labels.add(es["kind"])
+    if es.get("container") in ("generator", "map"):
+        labels.add("rates_from_one_shot_iterable")
     labels.add("with_ev" if ev is not None else "no_ev")
     labels.add("via_network" if spec["via_network"] else "direct")
     rec.count("pilots", len(spec["pilots"]))
@@ -325,7 +348,7 @@ def evse_specs(draw):
         if shape == "dups":
             rates = rates + rates[: draw(st.integers(1, len(rates)))]
     rates = list(draw(st.permutations(rates)))
-    return {"kind": "finite", "rates": rates}
+    return {"kind": "finite", "rates": rates, "container": draw(st.sampled_from(["list", "list", "tuple", "array", "generator", "map", "series", "set"]))}
 
 
 DELTAS = [0.0, 5e-4, -5e-4, 1e-3 - 1e-6, -(1e-3 - 1e-6), 1e-3 + 1e-6, -(1e-3 + 1e-6), 2e-3, -2e-3]
@@ -348,6 +371,8 @@ def cases(draw):
         extra = extra + draw(st.lists(st.sampled_from([1e6, 1e12, float("inf")]), max_size=2))
     elif draw(st.integers(0, 7)) == 0:
         extra = extra + [float("inf")]
+    if draw(st.integers(0, 3)) == 0:
+        extra = extra + [float("nan")]  # not a number lies in no allowable set
     pilots = list(draw(st.permutations(grid + extra)))
     # 0 A matters for every class (it is what an idle station is sent), also as the very first pilot
     zero_at = draw(st.sampled_from([0, 0, None, len(pilots) // 2]))
@@ -372,7 +397,7 @@ def subchecks(tier):
             prop,
             quick=1500,
             thorough=150000,
-            floors={"near_boundary": 0.454, "rejected": 0.5, "with_ev": 0.149, "finite": 0.15, "deadband": 0.08, "cont": 0.15, "infinite_maximum_fed_back": 0.05},
+            floors={"near_boundary": 0.454, "rejected": 0.5, "with_ev": 0.149, "finite": 0.15, "deadband": 0.08, "cont": 0.15, "infinite_maximum_fed_back": 0.05, "nan_pilot": 0.1, "rates_from_one_shot_iterable": 0.04},
         )
     ]
 
